@@ -65,7 +65,7 @@ Example stale_credentials_dropped :
   let evs := [QTake; QMsg (ICap [[42]; s_LS; s_sasl]); QTake; QMsg (ICap [[42]; [65;67;75]; s_sasl]); QMsg (IAuth [s_PLUS] true true);
               QMsg (IError [s_closing]); QTake] in
   map (fun rec => (fst rec, map snd (snd rec)))
-      (runQ c 2 (rstate (reset c (fresh c false)), Nk 2 false, Qst 0 (map (fun x => (0%nat, x)) (filter is_line (routs (reset c (fresh c false)))))) evs)
+      (runQ c 2 (rstate (reset c (fresh c false)), Nk 2 false false None, Qst 0 (map (fun x => (0%nat, x)) (filter is_line (routs (reset c (fresh c false)))))) evs)
   = [(0%nat, [Send s_CAP [s_LS; s_302]; Send s_NICK []; Send s_USER []]);
      (0%nat, [Send s_CAP [s_REQ; s_sasl]]);
      (1%nat, [Send s_CAP [s_LS; s_302]; Send s_NICK []; Send s_USER []])].
